@@ -214,6 +214,10 @@ def follow(fb, body, args, taint, trail, seen, depth=0):
     seen = seen | {body.path}
     # (trivial wrappers -- a newtype constructor, a `From` impl without calls -- are looked through)
     eng = common.mk_engine(fb, no_inline=lambda x: not (len(x.blocks) <= 2 and not list(x.calls())))
+    # (a reference into the caller's frame means nothing in a fresh exploration -- worse, its frame number would alias
+    # this body's own locals: it becomes a reference to an unknown place)
+    args = [(('ref', (('S', ('sym', 'caller-place-%d' % i)), ())) if (a is not None and a[0] == 'ref' and a[1][0][0] == 'L') else a)
+            for i, a in enumerate(args)]
     try:
         paths = eng.run(body, args=args)
     except psi.PathLimit:
@@ -298,8 +302,10 @@ def flow_chain(fb, chk):
     from .updater_model import UpdaterModel
     m = UpdaterModel(fb, chk, 'C19.R4')
     if m.ok:
-        same = m.field_of.get(3) == ctor_field
-        never = all(ctor_field not in i['stores'] for i in m.infos)
+        m.initial_state(chk)          # (sets the prefix under which the loop's own struct holds the constructed updater)
+        held = getattr(m, 'ctor_prefix', '') + ctor_field
+        same = m.field_of.get(3) == held
+        never = all(held not in i['stores'] for i in m.infos)
         chk.ob('C19.R4', 'flow:field->record', same and never, m.dispatch.where(0),
                'record.max_drift_ppb <- updater.%s on every publication; assigned after construction: %s' % (m.field_of.get(3), not never))
     return True
